@@ -39,16 +39,20 @@ Env0(L, ss, ks) == [pos |-> 0, L |-> L, ss |-> ss, sink |-> <<>>, ks |-> ks, sc 
 
 ---------------------------------------------------------------------------
 (* one driver call *)
+(* at the end of its data a driver may still answer "nothing right now" (0, EINTR, EAGAIN - if its script says so) before it reports the end *)
+AtEndStall(e) == e.pos >= e.L /\ e.ss # <<>> /\ Head(e.ss) \in {0, EINTR, EAGAIN}
 SrcChunkCall(e, want) ==      \* chunk source driver asked for `want` octets
     LET e1 == [e EXCEPT !.sc = e.sc + 1]
-    IN IF e.pos >= e.L THEN Ret(ENODATA, e1)
+    IN IF AtEndStall(e) THEN Ret(Head(e.ss), [e1 EXCEPT !.ss = Tail(e.ss)])
+       ELSE IF e.pos >= e.L THEN Ret(ENODATA, e1)
        ELSE LET b == NextB(e.ss)
                 e2 == [e1 EXCEPT !.ss = Rest(e.ss)]
             IN IF b <= 0 THEN Ret(b, e2)
                ELSE LET d == MinOf(Amount(b, want), e.L - e.pos) IN Ret(d, [e2 EXCEPT !.pos = e.pos + d])
 SrcOctetCall(e) ==            \* octet source driver
     LET e1 == [e EXCEPT !.sc = e.sc + 1]
-    IN IF e.pos >= e.L THEN Ret(ENODATA, e1)
+    IN IF AtEndStall(e) THEN Ret(Head(e.ss), [e1 EXCEPT !.ss = Tail(e.ss)])
+       ELSE IF e.pos >= e.L THEN Ret(ENODATA, e1)
        ELSE LET b == NextB(e.ss)
                 e2 == [e1 EXCEPT !.ss = Rest(e.ss)]
             IN IF b <= 0 THEN Ret(b, e2) ELSE Ret(1, [e2 EXCEPT !.pos = e.pos + 1])
